@@ -23,7 +23,7 @@ EXPLANATION = (
     "R06a: the bra-ket ordering as the constructors apply it: for 1- and 2-index groups over spaces x spins x numbered "
     "names (incl. names that tie in (number, letter) such as i / i0 and two distinct index objects of one name) K(u,l,+1) "
     "and K(l,u,+1) are never both exchanged and exactly one is whenever the groups differ (distinct indices never tie), "
-    "K(u,u,+1) is +(one object), unequal group sizes are refused. R06b (relational): for every index tuple of rank (1,1) and (2,2) (thorough: also (2,1), (3,3)) "
+    "K(u,u,+1) is +(one object), unequal group sizes are refused. R06b (relational): for every index tuple of rank (1,1) and (2,2) and rank (3,3) over two indices (thorough: also (2,1), (3,3) over four) "
     "over an index pool and bra-ket symmetry 0/+1/-1 all orderings related by the declared permutational and bra-ket "
     "symmetry give the same canonical object with the prescribed relative sign, a repeated index in an antisymmetric group "
     "and the diagonal of a bra-ket antisymmetric tensor (upper group a permutation of the lower group) give zero and nothing "
@@ -55,7 +55,7 @@ ASSUMPTIONS = [
     "orientation (< vs >) of the bra/ket ordering is deliberately not constrained",
     "value preservation under the declared assumptions is not decided (only that exactly the declared tensors are "
     "re-canonicalised with the complete declaration, everything else is left as it is)",
-    "index tuples are explored up to rank (2,2) over a pool of 4-6 abstract indices (thorough: pool of 8, (2,1) and (3,3) samples); "
+    "index tuples are explored up to rank (2,2) over a pool of 4-6 abstract indices and rank (3,3) over two (thorough: pool of 8, (2,1) and (3,3) samples over four); "
     "container clauses are decided on the model expressions listed in Scene.small / Scene.rich",
     "re-applying an unchanged declaration is not distinguished from not applying it (same value); that a real expression "
     "is not processed again by make_real is decided by counting the container objects the call builds",
@@ -447,6 +447,10 @@ def r06b(ctx):
         if thorough:
             ranks.append((2, 1))
             samples[(3, 3)] = pool[:4]
+        else:
+            # rank (3,3) over two indices: the tuples in which bra and ket hold the same set of indices with different
+            # multiplicities ((i,i,j) / (i,j,j)) first exist at this rank (seed C06-12)
+            samples[(3, 3)] = pool[:2]
         seen[impl] = cname
         n_eval = 0
         bad = {}
